@@ -385,11 +385,11 @@ class Advisory:
             advisory: str | bytes,
             routerid: RouterID | None = None,
         ) -> None:
-            # Handle both string and bytes input
-            if isinstance(advisory, bytes):
-                utf8 = advisory
-            else:
+            # Handle string, bytes and (when decoded from the wire) memoryview input
+            if isinstance(advisory, str):
                 utf8 = advisory.encode('utf-8')
+            else:
+                utf8 = bytes(advisory)
             if len(utf8) > MAX_ADVISORY:
                 utf8 = utf8[: MAX_ADVISORY - 3] + b'...'
             Advisory._Advisory.__init__(self, Operational.CODE.ADM, afi, safi, utf8)
@@ -406,11 +406,11 @@ class Advisory:
             advisory: str | bytes,
             routerid: RouterID | None = None,
         ) -> None:
-            # Handle both string and bytes input
-            if isinstance(advisory, bytes):
-                utf8 = advisory
-            else:
+            # Handle string, bytes and (when decoded from the wire) memoryview input
+            if isinstance(advisory, str):
                 utf8 = advisory.encode('utf-8')
+            else:
+                utf8 = bytes(advisory)
             if len(utf8) > MAX_ADVISORY:
                 utf8 = utf8[: MAX_ADVISORY - 3] + b'...'
             Advisory._Advisory.__init__(self, Operational.CODE.ASM, afi, safi, utf8)
